@@ -4,7 +4,10 @@
                                parseBuildLabelSubrepo, String, IsOriginalTarget, Includes, Matches, Parent,
                                isExperimental, CanSee
      src/core/state.go       : NewBuildState (experimentalLabels), BuildState.ShouldInclude / AddOriginalTarget
-                               (the ExcludeTargets test), expandOriginalPseudoTarget (package selection)
+                               (the ExcludeTargets test), expandOriginalPseudoTarget (package selection),
+                               SetIncludeAndExclude (with the caller's slice as state: sie_with)
+     src/core/build_label.go : LooksLikeABuildLabel, parseMaybeRelativeBuildLabel (the part that needs no repo root)
+     src/please.go           : the one option slice of a process, appended to and handed to a fresh state per build (op)
      src/parse/asp/targets.go: validateSandbox
    A Go string is its bytes (Base.Harness.str).  Every strings.* function used is called with ASCII
    arguments only, so the byte model is exact (IndexRune(':'), ContainsAny(ASCII set), TrimRight("/") ...).
@@ -18,7 +21,7 @@
    shorter suffixes; the model recurses on explicit fuel (length of the string + 1), `None` = out of fuel,
    proved unreachable (Proof/C20_Parse.v parts_fuel_enough, try_parse_never_out_of_fuel).
 
-   Not modelled: parseMaybeRelativeBuildLabel (repo-root discovery, filepath.Join), the directory walk behind a
+   Not modelled: the repo-root half of parseMaybeRelativeBuildLabel (MustFindRepoRoot, filepath.Join), the directory walk behind a
    command-line `//p/...` (FindAllBuildFiles: property C22), subrepo packages in PackageMap, logging.
    No proofs here. *)
 From Coq Require Import String.
@@ -173,7 +176,9 @@ Definition print (l : label) : str :=
   else
     let s0 := lit "//" ++ l_pkg l in
     let s1 := if is_nil (l_sub l) then s0 else lit "///" ++ l_sub l ++ s0 in
-    if is_all_sub l then (if is_nil (l_pkg l) then s1 ++ lit "..." else s1 ++ lit "/...")
+    (* the order of `if label.Subrepo != "" { s = "///" + ... }` and the `...` returns is the source's (Gen) *)
+    let s := if print_subrepo_prefix_first then s1 else s0 in
+    if is_all_sub l then (if is_nil (l_pkg l) then s ++ lit "..." else s ++ lit "/...")
     else s1 ++ lit ":" ++ l_name l.
 
 (* ---- the known ways a parsed label fails to print to something that parses back to it ------------------------- *)
@@ -217,7 +222,8 @@ Definition experimental_labels (dirs : list str) : list label :=
   map (fun d => L d (lit all_subpackages_name) []) dirs.
 
 Definition is_experimental (dirs : list str) (l : label) : bool :=
-  if negb (is_nil (l_sub l)) then false
+  (* `if label.Subrepo != "" { return false }`: there or not as in the source (Gen) *)
+  if is_experimental_subrepo_guard && negb (is_nil (l_sub l)) then false
   else existsb (fun e => includes e l) (experimental_labels dirs).
 
 (* BuildLabel.CanSee(state, dep): dep is given by its label and its visibility list *)
@@ -263,6 +269,101 @@ Definition expand (excl : list label) (pat : label) (graph : list (str * list st
               then filter (fun l => negb (excluded excl l)) (map (fun n => L (fst pn) n []) (snd pn))
               else []) graph.
 
+(* ---- SetIncludeAndExclude and the caller's exclude slice (state.go, please.go) ------------------------------- *)
+
+(* LooksLikeABuildLabel: the condition is translated from the source (Gen.looks_like_label_cond). *)
+Definition looks_like_label (e : str) : bool := looks_like_label_cond e.
+
+(* parseMaybeRelativeBuildLabel(e, ""): a string that starts with ':' or that neither parses nor starts with "//" needs the
+   repository root (MustFindRepoRoot, InitialPackagePath) - not modelled: None.  None is also log.Fatalf (the exclude does
+   not parse): in both cases the process does not get past SetIncludeAndExclude. *)
+Definition parse_exclude (e : str) : option label :=
+  if has_prefix (lit ":") e then None
+  else
+    let t := if negb (has_prefix (lit "//") e) && has_prefix (lit "/") e then 47%N :: e else e in
+    match try_parse t [] [] with
+    | Parsed l => Some l
+    | _ => None
+    end.
+
+(* A Go slice of strings as the callee sees it.  The caller's exclude slice is `arr` (its elements [0:len]); the
+   state's Exclude is either backed by an array of its own (Fresh, nil included) or is the view arr[0:n] of the
+   CALLER's backing array (Alias n).  append on a view whose length is below the array's writes in place. *)
+Inductive gslice := Fresh (l : list str) | Alias (n : nat).
+
+Fixpoint set_nth (n : nat) (e : str) (arr : list str) : list str :=
+  match arr, n with
+  | [], _ => []
+  | _ :: r, O => e :: r
+  | a :: r, S n' => a :: set_nth n' e r
+  end.
+
+Definition slice_elems (arr : list str) (sl : gslice) : list str :=
+  match sl with Fresh l => l | Alias n => firstn n arr end.
+
+(* x = append(x, e).  The view never outgrows the part of the array the caller can see (Proof/C20_Exclude.v alias_inv:
+   n <= index of the loop < len); beyond it the append no longer touches what the caller sees, and the model lets it
+   move to an array of its own. *)
+Definition slice_append (arr : list str) (sl : gslice) (e : str) : list str * gslice :=
+  match sl with
+  | Fresh l => (arr, Fresh (l ++ [e]))
+  | Alias n => if Nat.ltb n (length arr) then (set_nth n e arr, Alias (S n)) else (arr, Fresh (firstn n arr ++ [e]))
+  end.
+
+(* for _, e := range exclude { ... }: k elements to go, i the index; e is read from the array as it is NOW *)
+Fixpoint sie_loop (k i : nat) (arr : list str) (ex : gslice) (et : list label) : option (list str * gslice * list label) :=
+  match k with
+  | O => Some (arr, ex, et)
+  | S k' =>
+      let e := nth i arr [] in
+      if looks_like_label e then
+        match parse_exclude e with
+        | Some l => sie_loop k' (S i) arr ex (et ++ [l])
+        | None => None
+        end
+      else let (arr', ex') := slice_append arr ex e in sie_loop k' (S i) arr' ex' et
+  end.
+
+Definition init_slice (i : slice_init) : gslice :=
+  match i with InitNil => Fresh [] | InitArgEmptyPrefix => Alias 0 end.
+
+(* state.SetIncludeAndExclude(include, exclude) on a state whose ExcludeTargets are et0 (they are appended to, never reset):
+   Some (the caller's slice afterwards, state.Exclude, state.ExcludeTargets) *)
+Definition sie_with (init : slice_init) (et0 : list label) (arr : list str) : option (list str * list str * list label) :=
+  match sie_loop (length arr) 0 arr (init_slice init) et0 with
+  | Some (arr', ex, et) => Some (arr', slice_elems arr' ex, et)
+  | None => None
+  end.
+
+(* the function as the source has it today: the initialisation is the translated one *)
+Definition set_include_exclude := sie_with sie_exclude_init.
+
+(* One plz process (src/please.go): opts.BuildFlags.Exclude is ONE slice for the whole process;
+   OAppend xs = `opts.BuildFlags.Exclude = append(opts.BuildFlags.Exclude, xs...)` (query changes, runBuild),
+   OBuild     = Please(): a fresh state, state.SetIncludeAndExclude(.., opts.BuildFlags.Exclude).
+   Observed at every build: the option slice after the call, state.Exclude, state.ExcludeTargets and, for the probe
+   labels, whether ShouldInclude / AddOriginalTarget drop them (`excluded`). *)
+Inductive op := OAppend (xs : list str) | OBuild.
+
+Definition build_obs := (list str * list str * list label * list bool)%type.
+
+Fixpoint run_session_with (init : slice_init) (probes : list label) (ops : list op) (arr : list str) : option (list build_obs) :=
+  match ops with
+  | [] => Some []
+  | OAppend xs :: r => run_session_with init probes r (arr ++ xs)
+  | OBuild :: r =>
+      match sie_with init [] arr with
+      | None => None
+      | Some (arr', ex, et) =>
+          match run_session_with init probes r arr' with
+          | Some os => Some ((arr', ex, et, map (excluded et) probes) :: os)
+          | None => None
+          end
+      end
+  end.
+
+Definition run_session := run_session_with sie_exclude_init.
+
 (* ---- correspondence cases ------------------------------------------------------------------------------- *)
 
 (* all strings prefix ++ w, |w| <= depth, over the alphabet, in pre-order *)
@@ -300,6 +401,8 @@ Inductive case :=
 | CSandbox (whitelist : list label) (dirs : list str) (t : sbx_target) (ok : bool)
 | CCanSee (dirs : list str) (l dep : label) (vis : list label) (out : bool)
 | CExpand (excl : list label) (pat : label) (graph : list (str * list str)) (out : list label)
+| CSession (arr0 : list str) (ops : list op) (probes : list label) (out : list build_obs)
+    (* one process: the option slice, appends and builds; per build (slice after, Exclude, ExcludeTargets, excluded probes) *)
 | CBatch (cs : list case).                       (* several small cases in one (one Coq case costs ~5 ms of overhead) *)
 
 Definition parsed_eqb (p : parsed) (o : option label) : bool :=
@@ -312,6 +415,12 @@ Definition parsed_eqb (p : parsed) (o : option label) : bool :=
 Definition subset_eqb (a b : list label) : bool :=
   forallb (fun x => existsb (label_eqb x) b) a && forallb (fun x => existsb (label_eqb x) a) b
   && Nat.eqb (length a) (length b).
+
+Definition obs_eqb (a b : build_obs) : bool :=
+  match a, b with
+  | (arr, ex, et, ex_row), (arr', ex', et', ex_row') =>
+      list_eqb str_eqb arr arr' && list_eqb str_eqb ex ex' && list_eqb label_eqb et et' && list_eqb Bool.eqb ex_row ex_row'
+  end.
 
 Fixpoint check (c : case) : bool :=
   match c with
@@ -328,5 +437,10 @@ Fixpoint check (c : case) : bool :=
   | CSandbox w d t ok => Bool.eqb (validate_sandbox w d t) ok
   | CCanSee d l dep vis out => Bool.eqb (can_see d l dep vis) out
   | CExpand excl pat g out => subset_eqb (expand excl pat g) out      (* the implementation sorts; compared as sets of equal size *)
+  | CSession arr0 ops probes out =>
+      match run_session probes ops arr0 with
+      | Some os => list_eqb obs_eqb os out
+      | None => false
+      end
   | CBatch cs => forallb check cs
   end.
